@@ -381,8 +381,22 @@ def main(argv):
     seed = int(os.environ.get("VERIF_SEED", DEFAULT_SEED) or DEFAULT_SEED)
     pid = a.pid.upper()
     if a.replay:
+        try:
+            body = json.load(open(a.replay))
+        except (ValueError, UnicodeDecodeError):
+            body = None
+        if body is None or "fuzz_artifact" in (body.get("case") or {}):
+            import fuzzdrv
+            prop = importlib.import_module(pid.lower()).PROP
+            path = a.replay if body is None else body["case"]["fuzz_artifact"]
+            failed, out = fuzzdrv.replay_file(prop.fuzz_target, path)
+            if failed:
+                print("VIOLATION property=%s replay=%s" % (pid, a.replay))
+                print(out[-3000:])
+                return 1
+            print("replay passes: %s" % a.replay)
+            return 0
         r = Runner(pid, "quick", seed)
-        body = json.load(open(a.replay))
         _worker_init(r.build_dir, pid, "quick", seed)
         out = r.prop.check_case(body["case"], get_ex)
         shutil.rmtree(r.workdir, ignore_errors=True)
